@@ -198,7 +198,7 @@ func stageDrift(c Node, out Outcome, unordered bool) string {
 	for _, hst := range seq(c["hist"]) {
 		hst := hst.(Node)
 		st := hst["st"].(string)
-		if st == "ret" || st == "union" || st == "cte" {
+		if st == "ret" || st == "union" || st == "cte" || st == "dual" {
 			continue
 		}
 		if e, _ := hst["err"].(bool); e {
